@@ -26,6 +26,10 @@ def same_or(o, n, pairs):
 invariant("Telomere", "length-in-range", "0 <= self._telomere_length and self._telomere_length <= self.max_operations")
 invariant("Telomere", "hayflick", "self.true_ticks >= 0 and self.true_ticks + self._telomere_length <= self.max_operations")
 assume_config("Telomere", "limits", "self.max_operations >= 1 and self.error_threshold >= 1")
+# an active lifecycle has a start time and a last-activity time: the time limits of check_timeouts are measured from them (without this a
+# lifecycle whose start forgot to stamp them would never be forced into senescence by time)
+invariant("Telomere", "active-is-stamped", "implies(self._phase == LifecyclePhase.ACTIVE or self._phase == LifecyclePhase.SENESCENT, "
+          "self._started_at is not None and self._last_activity is not None)")       # SENESCENT is only entered from ACTIVE and renews back into it
 invariant("Telomere", "counters", "self._operations_count >= 0 and self._error_count >= 0")
 
 CB = {"self.on_phase_change": {"raises": (), "returns": "any"}, "self.on_senescence": {"raises": (), "returns": "any"}}
